@@ -85,7 +85,7 @@ def check(prop, tier, seed, replay=None, root='/repo', quiet=False):
     extra['variants'] = vres
     nfire = sum(1 for v in vres if v['expect'] == 'fire')
     nsil = sum(1 for v in vres if v['expect'] == 'silent')
-    miss = [v for v in vres if v['outcome'] not in ('as-expected', 'not-applicable', 'already-firing')]
+    miss = [v for v in vres if v['outcome'] not in ('as-expected', 'already-firing')]   # a variant whose snippet is gone tests nothing: reported
     print(f'  self-test: {len(vres)} source variants analysed '
           f'({nfire} must-fire, {nsil} must-stay-silent), {len(miss)} not as expected')
     for v in miss:
